@@ -584,6 +584,10 @@ def _build_ops():
         _all_members("text", "MSO_VERTICAL_ANCHOR") + V_ENUMX)
     _op("table.first_row", "table", "first_row", V_BOOL, metric="truthy")
     _op("table.horz_banding", "table", "horz_banding", V_BOOL[:6], metric="truthy")
+    _op("table.last_row", "table", "last_row", V_BOOL, metric="truthy")
+    _op("table.first_col", "table", "first_col", V_BOOL[:6], metric="truthy")
+    _op("table.last_col", "table", "last_col", V_BOOL[:6], metric="truthy")
+    _op("table.vert_banding", "table", "vert_banding", V_BOOL[:6], metric="truthy")
     _op("presentation.slide_width", "prs", "slide_width", _int_range(914400, 51206400) + [L("Inches", 10)],
         bounds=[(914400, 51206400)])
     # charts
@@ -847,6 +851,30 @@ def check_api(case):
         raise Violation("C11:api=%s:roundtrip-raises" % name, "%s then reading raised %r" % (desc, e))
     if not _api_same(metric, v, back):
         raise Violation("C11:api=%s:roundtrip:value=%s" % (name, vc), "%s reads back %r" % (desc, back))
+    # "every schema-valid lexical form met in a document can be read": an xsd:boolean the setter wrote as 1 / 0 is
+    # respelled true / false in place (as other producers write it) and read again through the same getter
+    for (tag, an, val) in sorted(new_attrs):
+        if val not in ("1", "0"):
+            continue
+        qn = etree.QName(tag)
+        tys = M.attr_types(qn.namespace, qn.localname, an)
+        if not tys or any(t[1] != "boolean" for t in tys):
+            continue
+        hit = [el for el in root.iter(tag) if el.get(an) == val]
+        if len(hit) != 1:
+            continue
+        hit[0].set(an, "true" if val == "1" else "false")
+        try:
+            again = getattr(tgt, last)
+        except Exception as e:
+            raise Violation("C11:api=%s:lexical-alternative-raises" % name,
+                            "%s; with %s/@%s respelled %r the getter raised %r" % (desc, qn.localname, an, hit[0].get(an), e))
+        finally:
+            hit[0].set(an, val)
+        if again != back:
+            raise Violation("C11:api=%s:lexical-alternative-misread" % name,
+                            "%s reads %r; with %s/@%s respelled %r (same xsd:boolean value) it reads %r"
+                            % (desc, back, qn.localname, an, "true" if val == "1" else "false", again))
     return {"outcome": "accepted"}
 
 
